@@ -6,4 +6,5 @@ TRUSTED = ['getattr(value, name) and Python == on untyped values are ghost funct
 LEVEL_NOTE = 'getattr(value, name) and Python == on untyped values are ghost functions (getattr_dyn, py_equal); tags / dependencies / launcher / workspace are not read by update (read frame not mechanised: covered by the bounded suite)'
 from bounded.identifiers import run_c02
 from bounded.findings import run_c02_meta_in_default
-BOUNDED = [("signature-neutral edits at every node and depth", run_c02), ("default value that is a configuration (Meta edit)", run_c02_meta_in_default)]
+from bounded.extra import run_c02_tagged_values
+BOUNDED = [("signature-neutral edits at every node and depth", run_c02), ("default value that is a configuration (Meta edit)", run_c02_meta_in_default), ("tagged values", run_c02_tagged_values)]
